@@ -36,6 +36,7 @@ RS = z3.RealSort()
 PI = z3.Real("pi")
 PI_FACTS = [PI > z3.RealVal("3.14159265358979"), PI < z3.RealVal("3.14159265358980")]
 
+_INF = float('inf')
 CUR = None  # current Path while a symbolic execution is active
 
 
@@ -161,6 +162,9 @@ class SymReal:
             return NotImplemented
         if o is None or isinstance(o, str):
             return NotImplemented
+        if isinstance(o, (float, _np.floating)) and (o != o or o in (_INF, -_INF)):
+            # comparisons against +-inf / nan are decided without a term
+            return SymBool(z3.BoolVal(bool(f(0.0, float(o)))))
         return SymBool(f(self.t, lift(o)))
 
     def __lt__(self, o): return self._cmp(o, lambda a, b: a < b)
@@ -356,6 +360,24 @@ def uf(name, *args):
     return SymReal(app)
 
 
+SPECIAL_FACTS = {
+    "gamma": lambda ts, app: [z3.Implies(ts[0] > 0, app > 0), z3.Implies(ts[0] == 1, app == 1),
+                              z3.Implies(ts[0] == 2, app == 1)],
+    "beta": lambda ts, app: [z3.Implies(z3.And(ts[0] > 0, ts[1] > 0), app > 0)],
+    "kv": lambda ts, app: [z3.Implies(ts[1] > 0, app > 0)],
+    "gammainc": lambda ts, app: [z3.Implies(z3.And(ts[0] > 0, ts[1] >= 0), z3.And(app >= 0, app <= 1)),
+                                 z3.Implies(z3.And(ts[0] > 0, ts[1] > 0), app > 0)],
+    "gammaincc": lambda ts, app: [z3.Implies(z3.And(ts[0] > 0, ts[1] >= 0), z3.And(app >= 0, app <= 1)),
+                                  z3.Implies(z3.And(ts[0] > 0, ts[1] >= 0), app > 0)],
+    "exp1": lambda ts, app: [z3.Implies(ts[0] > 0, app > 0)],
+    "expn": lambda ts, app: [z3.Implies(ts[1] > 0, app > 0)],
+    "erf": lambda ts, app: [app > -1, app < 1, z3.Implies(ts[0] == 0, app == 0),
+                            z3.Implies(ts[0] > 0, app > 0)],
+    "erfinv": lambda ts, app: [z3.Implies(ts[0] == 0, app == 0),
+                               z3.Implies(z3.And(ts[0] > 0, ts[0] < 1), app > 0)],
+}
+
+
 def _neg_coeff(t):
     n = _num(t)
     if n is not None:
@@ -435,8 +457,21 @@ def _facts_for(path, name, ts, app):
         F.append(z3.Implies(z3.And(a == -1, x != 0), app * x == 1))
         F.append(z3.Implies(x == 1, app == 1))
         F.append(z3.Implies(z3.And(x == 0, a > 0), app == 0))
+        F.append(z3.Implies(x >= 0, app >= 0))
+        F.append(z3.Implies(z3.And(x > 1, a > 0), app > 1))
+        F.append(z3.Implies(z3.And(x > 0, x < 1, a > 0), app < 1))
         for (x2, a2, p2) in path.pows:
             F.append(z3.Implies(z3.And(x == x2, a == a2), app == p2))
+            # monotone in the base for equal exponents
+            F.append(z3.Implies(z3.And(a == a2, a > 0, x > x2, x2 >= 0), app > p2))
+            F.append(z3.Implies(z3.And(a == a2, a > 0, x2 > x, x >= 0), p2 > app))
+            F.append(z3.Implies(z3.And(a == a2, a < 0, x > x2, x2 > 0), app < p2))
+            F.append(z3.Implies(z3.And(a == a2, a < 0, x2 > x, x > 0), p2 < app))
+            # monotone in the exponent for equal bases
+            F.append(z3.Implies(z3.And(x == x2, x > 1, a > a2), app > p2))
+            F.append(z3.Implies(z3.And(x == x2, x > 1, a < a2), app < p2))
+            F.append(z3.Implies(z3.And(x == x2, x > 0, x < 1, a > a2), app < p2))
+            F.append(z3.Implies(z3.And(x == x2, x > 0, x < 1, a < a2), app > p2))
         path.pows.append((x, a, app))
     elif name == "arcsin":
         t = ts[0]
@@ -469,7 +504,23 @@ def _facts_for(path, name, ts, app):
         c = uf("cos", SymReal(t)).t
         F.append(z3.Implies(c != 0, app * c == s))
     else:
-        # generic special function: congruence only
+        # generic special function: congruence + textbook sign/range facts (T4)
+        sf = SPECIAL_FACTS.get(name)
+        if sf is not None:
+            F.extend(sf(ts, app))
+        if name in ("erf", "erfinv"):
+            for (ts2, a2) in path.generic.get((name, 1), []):
+                F.append(z3.Implies(ts[0] < ts2[0], app < a2))
+                F.append(z3.Implies(ts[0] > ts2[0], app > a2))
+            other = "erfinv" if name == "erf" else "erf"
+            for (ts2, a2) in path.generic.get((other, 1), []):
+                # erfinv(erf(x)) = x ; erf(erfinv(u)) = u on (-1, 1)
+                if name == "erfinv":
+                    F.append(z3.Implies(ts[0] == a2, app == ts2[0]))
+                    F.append(z3.Implies(z3.And(ts2[0] == app, ts[0] > -1, ts[0] < 1), a2 == ts[0]))
+                else:
+                    F.append(z3.Implies(z3.And(ts[0] == a2, ts2[0] > -1, ts2[0] < 1), app == ts2[0]))
+                    F.append(z3.Implies(ts2[0] == app, a2 == ts[0]))
         for (ts2, a2) in path.generic.setdefault((name, len(ts)), []):
             F.append(z3.Implies(z3.And([u == v for u, v in zip(ts, ts2)]), app == a2))
         path.generic[(name, len(ts))].append((ts, app))
@@ -758,8 +809,8 @@ class ConcCtx:
     def ne(self, a, b): return not self.eq(a, b)
     def le(self, a, b): return self._rel(a, b, lambda x, y: x <= y or self._close(x, y))
     def ge(self, a, b): return self._rel(a, b, lambda x, y: x >= y or self._close(x, y))
-    def lt(self, a, b): return self._rel(a, b, lambda x, y: x < y and not self._close(x, y))
-    def gt(self, a, b): return self._rel(a, b, lambda x, y: x > y and not self._close(x, y))
+    def lt(self, a, b): return self._rel(a, b, lambda x, y: x < y)
+    def gt(self, a, b): return self._rel(a, b, lambda x, y: x > y)
     def And(self, *xs): return all(self._b(x) for x in xs)
     def Or(self, *xs): return any(self._b(x) for x in xs)
     def Not(self, x): return not self._b(x)
@@ -1112,16 +1163,19 @@ def ackermannize(formulas):
     already added pairwise as ground facts when the applications were created)"""
     cache = {}
     fresh = {}
+    keep = []   # keeps every visited term alive: z3 re-uses ast ids after garbage collection
 
     def walk(t):
         k = t.get_id()
         if k in cache:
             return cache[k]
+        keep.append(t)
         if z3.is_app(t):
             ch = [walk(c) for c in t.children()]
             d = t.decl()
             if d.kind() == z3.Z3_OP_UNINTERPRETED and ch:
                 t2 = d(*ch)
+                keep.append(t2)
                 k2 = t2.get_id()
                 if k2 not in fresh:
                     fresh[k2] = z3.Real("uf!%s!%d" % (d.name(), len(fresh)))
